@@ -112,12 +112,17 @@ def calibrate(cal, raw):
     if isinstance(cal, Poly):
         terms = [Fraction(c) * x ** e for c, e in cal.terms]
         return float(sum(terms)), float(sum(abs(t) for t in terms))
-    pts = sorted((Fraction(r), Fraction(c)) for r, c in cal.points)
+    # points ordered by raw value; points that share a raw value (a step: left limit, then right limit) keep their document order
+    pts = sorted(((Fraction(r), Fraction(c)) for r, c in cal.points), key=lambda p: p[0])
     xs = [p[0] for p in pts]
     ys = [p[1] for p in pts]
     lo, hi = xs[0], xs[-1]
+    if xs.count(x) > 1:
+        raise RefUnspecified("spline queried exactly at a step (two points with the same raw value)")
 
     def line(a, b):
+        if xs[a] == xs[b]:
+            raise RefUnspecified("spline segment of zero length")
         v = ys[a] + (ys[b] - ys[a]) * (x - xs[a]) / (xs[b] - xs[a])
         return float(v), float(abs(ys[a]) + abs(ys[b]) + abs((ys[b] - ys[a]) * (x - xs[a]) / (xs[b] - xs[a])))
     if lo <= x <= hi:
@@ -378,7 +383,7 @@ def decode_numeric_raw(enc, cur: Cursor):
         return v if enc.enc == "unsigned" else twos(v, enc.bits)
     if enc.lsb_first:
         s = reverse_bytes_bits(s)
-    return mil1750a(s) if enc.enc == "MILSTD_1750A" else ieee(s)
+    return mil1750a(s) if enc.enc in ("MILSTD_1750A", "MIL-1750A") else ieee(s)
 
 
 def numeric_calibrators(pt: PType):
